@@ -13,7 +13,7 @@ pub struct C16;
 /// opt: 0 = inline deadline None, 1 = virtual clock expiring at probe 0, 2 = real deadline in the
 /// past, 3 = the default iter_inline_changes (500 ms real deadline; its result must satisfy the
 /// same invariants whatever happens), 4.. = virtual clock expiring at probe opt-4
-fn judge<'a, T: DiffableStr + ?Sized + 'a>(d: &'a TextDiff<'a, 'a, 'a, T>, opt: u8, obs: &mut Obs) -> Result<(), String> {
+fn judge<'a, T: DiffableStr + ?Sized + 'a>(d: &'a TextDiff<'a, 'a, 'a, T>, opt: u8, _bare_items: bool, obs: &mut Obs) -> Result<(), String> {
     let mut emphasised_and_plain = false;
     let mut any_replace = false;
     for op in d.ops() {
@@ -105,8 +105,8 @@ pub fn check_case(c: &TextCase, obs: &mut Obs) -> Verdict {
     obs.class_if(c.has_invalid(), "invalid UTF-8");
     // how the line diff is built: 0 diff_lines; 1 / 2 with newline_terminated(false / true); 3 / 4
     // diff_slices over the line tokens (terminators kept), 4 with newline_terminated(true)
-    let how = c.tok % 5;
-    obs.class(["built by diff_lines", "diff_lines + newline_terminated(false)", "diff_lines + newline_terminated(true)", "diff_slices over line tokens", "diff_slices over line tokens + newline_terminated(true)"][how as usize]);
+    let how = c.tok % 6;
+    obs.class(["built by diff_lines", "diff_lines + newline_terminated(false)", "diff_lines + newline_terminated(true)", "diff_slices over line tokens", "diff_slices over line tokens + newline_terminated(true)", "diff_slices over caller-split lines WITHOUT terminators (blank lines are empty items)"][how as usize]);
     let mut cfg = cfg;
     match how {
         1 => {
@@ -120,23 +120,38 @@ pub fn check_case(c: &TextCase, obs: &mut Obs) -> Verdict {
     let r = if c.use_bytes() {
         guard(|| {
             if how >= 3 {
-                let (to, tn) = (c.old.0[..].tokenize_lines(), c.new.0[..].tokenize_lines());
+                fn strip(t: &[u8]) -> &[u8] {
+                    let t = t.strip_suffix(b"\n").unwrap_or(t);
+                    t.strip_suffix(b"\r").unwrap_or(t)
+                }
+                let (mut to, mut tn) = (c.old.0[..].tokenize_lines(), c.new.0[..].tokenize_lines());
+                if how == 5 {
+                    to = to.into_iter().map(|t| strip(t)).collect();
+                    tn = tn.into_iter().map(|t| strip(t)).collect();
+                }
                 let d = cfg.diff_slices(&to, &tn);
-                judge(&d, opt, obs)
+                judge(&d, opt, how == 5, obs)
             } else {
                 let d = cfg.diff_lines(&c.old.0[..], &c.new.0[..]);
-                judge(&d, opt, obs)
+                judge(&d, opt, how == 5, obs)
             }
         })
     } else {
         guard(|| {
             if how >= 3 {
-                let (to, tn) = (c.old.as_str().unwrap().tokenize_lines(), c.new.as_str().unwrap().tokenize_lines());
+                fn strip(t: &str) -> &str {
+                    t.trim_end_matches(|ch| ch == '\n' || ch == '\r')
+                }
+                let (mut to, mut tn) = (c.old.as_str().unwrap().tokenize_lines(), c.new.as_str().unwrap().tokenize_lines());
+                if how == 5 {
+                    to = to.into_iter().map(|t| strip(t)).collect();
+                    tn = tn.into_iter().map(|t| strip(t)).collect();
+                }
                 let d = cfg.diff_slices(&to, &tn);
-                judge(&d, opt, obs)
+                judge(&d, opt, how == 5, obs)
             } else {
                 let d = cfg.diff_lines(c.old.as_str().unwrap(), c.new.as_str().unwrap());
-                judge(&d, opt, obs)
+                judge(&d, opt, how == 5, obs)
             }
         })
     };
@@ -154,7 +169,8 @@ fn wordy_pair(invalid: bool) -> BoxedStrategy<(crate::gen::BStr, crate::gen::BSt
     let n_all = crate::gen::n_atoms(invalid);
     let word = move || prop_oneof![5 => prop_oneof![Just(0usize), Just(1), Just(2), Just(5), Just(6), Just(10), Just(11)], 2 => 0usize..nwords, 1 => 0usize..n_all];
     // a line: words separated by single spaces, terminator
-    let line = move || (vec(word(), 1..=6), 0usize..6);
+    // (one line in ten is blank: no word at all)
+    let line = move || (prop_oneof![1 => vec(word(), 0..=0), 9 => vec(word(), 1..=6)], 0usize..6);
     (vec(line(), 0..=6), vec((0u8..6, any::<u16>(), any::<u16>(), word()), 0..=5), any::<bool>(), any::<bool>())
         .prop_map(|(lines, edits, fa, fb)| {
             let mut new_lines = lines.clone();
@@ -166,6 +182,7 @@ fn wordy_pair(invalid: bool) -> BoxedStrategy<(crate::gen::BStr, crate::gen::BSt
                 let l = crate::gen::pos(li, new_lines.len() - 1);
                 let nw = new_lines[l].0.len();
                 match kind {
+                    0 if nw == 0 => new_lines[l].0.push(w),
                     0 => {
                         let p = crate::gen::pos(wi, nw - 1);
                         new_lines[l].0[p] = w;
@@ -220,7 +237,7 @@ fn wordy_pair(invalid: bool) -> BoxedStrategy<(crate::gen::BStr, crate::gen::BSt
 
 fn strat(tier: Tier) -> BoxedStrategy<TextCase> {
     let wordy = |invalid: bool| {
-        (wordy_pair(invalid), 0u8..3, any::<bool>(), 0u8..8, prop_oneof![4 => Just(0u8), 1 => 1u8..5])
+        (wordy_pair(invalid), 0u8..3, any::<bool>(), 0u8..8, prop_oneof![4 => Just(0u8), 1 => 1u8..6])
             .prop_map(move |((old, new), alg, bytes, opt, tok)| TextCase { old, new, tok, alg, bytes: bytes || invalid, opt })
     };
     prop_oneof![20 => wordy(false), 12 => wordy(true), 8 => line_case(tier.pick(20, 60), true), 4 => text_case_mix(60).prop_map(|mut c| { c.tok = 0; c }), 1 => big_line_case(tier.pick(120, 200))].boxed()
@@ -258,7 +275,7 @@ impl Prop for C16 {
     type Case = TextCase;
     const ID: &'static str = "C16";
     fn rule() -> String {
-        "cases = (old, new, algorithm, str | [u8], construction in {diff_lines, diff_lines with newline_terminated(false|true), diff_slices over the line tokens (with/without newline_terminated(true))}, inline deadline in {None, virtual clock expiring at probe 0..3, real deadline in the past, default iter_inline_changes}); line texts whose lines consist of several words and are mutated at WORD level (replace/insert/delete a word, change the terminator, duplicate/delete a line) so that Replace ops pass both similarity gates; words include multi-byte, combining, emoji, NBSP and (for [u8]) invalid UTF-8 fragments; plus the shared line/text mixtures. Oracle per op: inline tags and old/new indices == plain expansion; segments concatenate to the plain change's line; emphasised segments only in Delete/Insert changes of a Replace op and without CR/LF; missing_newline agrees with the line; no panic. Non-trivial = some line has both an emphasised and a plain segment; distinct = distinct serialized case.".into()
+        "cases = (old, new, algorithm, str | [u8], construction in {diff_lines, diff_lines with newline_terminated(false|true), diff_slices over the line tokens (with/without newline_terminated(true)), diff_slices over caller-split lines without terminators (blank lines are empty items)}, inline deadline in {None, virtual clock expiring at probe 0..3, real deadline in the past, default iter_inline_changes}); line texts whose lines consist of several words and are mutated at WORD level (replace/insert/delete a word, change the terminator, duplicate/delete a line) so that Replace ops pass both similarity gates; words include multi-byte, combining, emoji, NBSP and (for [u8]) invalid UTF-8 fragments; plus the shared line/text mixtures. Oracle per op: inline tags and old/new indices == plain expansion; segments concatenate to the plain change's line; emphasised segments only in Delete/Insert changes of a Replace op and without CR/LF; missing_newline agrees with the line; no panic. Non-trivial = some line has both an emphasised and a plain segment; distinct = distinct serialized case.".into()
     }
     fn assumptions() -> Vec<String> {
         vec!["'line-break character' = CR or LF (the crate's own line convention)".into(), "the default 500 ms deadline variant is judged only by invariants that hold whether or not it expires".into()]
